@@ -382,3 +382,87 @@ func ObserveShallow(mk func() ion.Reader) (vals []model.Value, err error) {
 	})
 	return
 }
+
+// ReadScalar calls the accessor matching the current type and IntSize for ints,
+// discarding the results (C06: must not panic).
+func ReadScalar(r ion.Reader) {
+	switch r.Type() {
+	case ion.BoolType:
+		r.BoolValue()
+	case ion.IntType:
+		r.IntSize()
+		r.BigIntValue()
+		r.Int64Value()
+		r.IntValue()
+	case ion.FloatType:
+		r.FloatValue()
+	case ion.DecimalType:
+		if d, _ := r.DecimalValue(); d != nil {
+			_ = d.String()
+		}
+	case ion.TimestampType:
+		if t, _ := r.TimestampValue(); t != nil {
+			_ = t.String()
+		}
+	case ion.SymbolType:
+		r.SymbolValue()
+	case ion.StringType:
+		r.StringValue()
+	case ion.ClobType, ion.BlobType:
+		r.ByteValue()
+	}
+}
+
+// Navigate interprets prog as a sequence of Reader calls (one byte per call,
+// modulo the number of operations), ignoring every result; returns the number of
+// successful Next calls. Calls are issued regardless of state: after errors, at
+// the end of the stream, on the wrong type.
+func Navigate(r ion.Reader, prog []byte) int {
+	n := 0
+	for _, op := range prog {
+		switch op % 22 {
+		case 0, 1, 2, 3, 4:
+			if r.Next() {
+				n++
+			}
+		case 5, 6:
+			r.StepIn()
+		case 7:
+			r.StepOut()
+		case 8:
+			r.Type()
+			r.IsNull()
+		case 9:
+			r.FieldName()
+			r.Annotations()
+		case 10:
+			r.BoolValue()
+		case 11:
+			r.IntSize()
+			r.IntValue()
+		case 12:
+			r.Int64Value()
+			r.BigIntValue()
+		case 13:
+			r.FloatValue()
+		case 14:
+			r.DecimalValue()
+		case 15:
+			r.TimestampValue()
+		case 16:
+			r.SymbolValue()
+		case 17:
+			r.StringValue()
+		case 18:
+			r.ByteValue()
+		case 19:
+			r.IsInStruct()
+			r.SymbolTable()
+		case 20:
+			r.Err()
+		case 21:
+			ReadScalar(r)
+		}
+	}
+	return n
+}
